@@ -321,7 +321,12 @@ int websocket_compress(const struct websocket *s, uint8_t *dest, uint8_t *src, s
 		return -1;
 	}
 	have = length * 2 - strm->avail_out;
-	if (have < 4) log_err("Deflate not enough space!");
+	if ((have < 4) || (strm->avail_out == 0)) {
+		/* The flushed block does not fit into the caller's buffer of 2 * length bytes. */
+		log_err("Deflate not enough space!");
+		deflateEnd(strm);
+		return -1;
+	}
 
 	if (dest[have - 1] != 0xff) log_err("Error remove tail deflate!");
 	if (dest[have - 2] != 0xff) log_err("Error remove tail deflate!");
